@@ -30,12 +30,27 @@ def _parse_summary(out):
 
 
 def _tuples(out, tag):
-    """Lines printed by PrintT(<<"TAG", ...>>), parsed into lists of strings/ints."""
+    """Tuples printed by PrintT(<<"TAG", ...>>) -- TLC breaks long tuples over several lines, so the
+    text is matched by brackets -- parsed into lists of strings/ints."""
     res = []
-    for m in re.finditer(r'^<<"%s", (.*)>>$' % tag, out, re.M):
-        body = m.group(1)
+    for m in re.finditer(r'^<<\s*"%s",' % tag, out, re.M):
+        i, depth = m.start(), 0
+        j = i
+        while j < len(out):
+            if out.startswith('<<', j):
+                depth += 1
+                j += 2
+                continue
+            if out.startswith('>>', j):
+                depth -= 1
+                j += 2
+                if depth == 0:
+                    break
+                continue
+            j += 1
+        body = out[m.end():j - 2]
         parts = re.findall(r'"((?:[^"\\]|\\.)*)"|(-?\d+)', body)
-        res.append([p[0] if p[0] != '' or p[1] == '' else int(p[1]) for p in parts])
+        res.append([p[0] if p[1] == '' else int(p[1]) for p in parts])
     return res
 
 
